@@ -43,6 +43,7 @@ def gen_prog(rng):
             k = int(rng.integers(1, min(2, len(anyu)) + 1))
             ps = [int(x) for x in rng.choice(anyu, size=k, replace=False)]
             units.append({"kind": str(rng.choice(["calc", "calc", "tcalc", "wvar"])), "name": f"i{ui}", "parents": ps,
+                          "via_value_node": bool(rng.random() < 0.3),
                           "coef": [float(rng.integers(-3, 4))] + [float(rng.choice([-2, -1, 1, 2])) for _ in ps]})
         else:
             p = int(rng.choice(anyu))
@@ -104,6 +105,9 @@ def build(desc):
         else:
             f = _affine(u["coef"])
             ins = [objs[p] for p in u["parents"]]
+            if u.get("via_value_node"):
+                # the user wires the variable's value node itself (not the Var / its proxy)
+                ins = [o.value_node if isinstance(o, lsl.Var) else o for o in ins]
             if u["kind"] == "calc":
                 objs.append(lsl.Calc(f, *ins, _name=u["name"]))
             elif u["kind"] == "tcalc":
